@@ -301,7 +301,7 @@ def ev(case, rec):
     rec.sample({'case': case, 'reachable_states': len(seen)})
 
 
-SUBCHECKS = [Sub('graph', gen, ev, chunk=2, floor=200)]
+SUBCHECKS = [Sub('graph', gen, ev, chunk=2, floor=200, envs=4)]
 
 
 def bounds(tier, seed):
